@@ -172,6 +172,7 @@ type Global struct {
 	Name    string
 	V       reflect.Value // addressable value
 	Mutable bool          // not statically frozen: its value is watched at every scheduling point
+	Sync    bool          // a synchronisation object (sync.Once, Mutex, Pool, atomics): not data - never hashed or watched, but reset together with the data it guards
 }
 
 var registered []Global
@@ -194,7 +195,11 @@ func Baseline() {
 	}
 	baseline = []uint64{}
 	for _, g := range registered {
-		baseline = append(baseline, DeepHash(g.V))
+		if g.Sync {
+			baseline = append(baseline, 0)
+		} else {
+			baseline = append(baseline, DeepHash(g.V))
+		}
 		c := reflect.New(g.V.Type()).Elem()
 		deepCopyInto(c, g.V)
 		clones = append(clones, c)
@@ -209,9 +214,19 @@ func RestoreGlobals() []string {
 		if i >= len(baseline) {
 			break
 		}
+		if g.Sync {
+			continue
+		}
 		if DeepHash(g.V) != baseline[i] {
 			deepCopyInto(g.V, clones[i])
 			out = append(out, g.Name)
+		}
+	}
+	// synchronisation objects go back to their baseline state whenever any data was restored (a sync.Once that has fired
+	// guards data that has just been reset), and also when nothing was: they carry no observable value of their own
+	for i, g := range registered {
+		if g.Sync && i < len(clones) {
+			deepCopyInto(g.V, clones[i])
 		}
 	}
 	return out
@@ -398,7 +413,7 @@ func (e *Exec) ShareMem(name string, p unsafe.Pointer, n int) {
 
 func (e *Exec) scanRegions(loc string) {
 	for i, g := range e.globals {
-		if !g.Mutable {
+		if !g.Mutable || g.Sync {
 			continue
 		}
 		if h := DeepHash(g.V); h != e.mHash[i] {
@@ -497,6 +512,10 @@ func (e *Exec) acquire(s *SyncObj) {
 // Release/Acquire are exported for the sync shim.
 func Release(s *SyncObj) {
 	if active != nil {
+		// value changes made so far belong before the release: attribute them now, with the pre-release clock
+		if active.cur != nil {
+			active.scanRegions("before release")
+		}
 		active.release(s)
 	}
 }
@@ -557,7 +576,10 @@ func runExec(prefix []int, setup func(e *Exec) []func(), globals []Global) *Exec
 	}
 	RestoreGlobals()
 	for _, g := range globals {
-		h := DeepHash(g.V)
+		var h uint64
+		if !g.Sync {
+			h = DeepHash(g.V)
+		}
 		e.gHash = append(e.gHash, h)
 		e.mHash = append(e.mHash, h)
 	}
@@ -636,6 +658,9 @@ func runExec(prefix []int, setup func(e *Exec) []func(), globals []Global) *Exec
 		}
 	}
 	for i, g := range globals {
+		if g.Sync {
+			continue
+		}
 		h := DeepHash(g.V)
 		if h != e.gHash[i] || (baseline != nil && i < len(baseline) && h != baseline[i]) {
 			e.GlobalsChanged = append(e.GlobalsChanged, g.Name)
